@@ -102,6 +102,15 @@ func ScopeMiddleware(provider godi.Provider, opts ...Option) gin.HandlerFunc {
 		opt(cfg)
 	}
 
+	// A handler that an option set to nil is the default one
+	defaults := defaultConfig()
+	if cfg.ErrorHandler == nil {
+		cfg.ErrorHandler = defaults.ErrorHandler
+	}
+	if cfg.CloseErrorHandler == nil {
+		cfg.CloseErrorHandler = defaults.CloseErrorHandler
+	}
+
 	return func(c *gin.Context) {
 		scope, err := provider.CreateScope(c.Request.Context())
 		if err != nil {
@@ -224,6 +233,18 @@ func Handle[T any](method func(T, *gin.Context), opts ...HandlerOption) gin.Hand
 	cfg := defaultHandlerConfig()
 	for _, opt := range opts {
 		opt(cfg)
+	}
+
+	// A handler that an option set to nil is the default one
+	defaults := defaultHandlerConfig()
+	if cfg.PanicHandler == nil {
+		cfg.PanicHandler = defaults.PanicHandler
+	}
+	if cfg.ScopeErrorHandler == nil {
+		cfg.ScopeErrorHandler = defaults.ScopeErrorHandler
+	}
+	if cfg.ResolutionErrorHandler == nil {
+		cfg.ResolutionErrorHandler = defaults.ResolutionErrorHandler
 	}
 
 	return func(c *gin.Context) {
